@@ -21,7 +21,7 @@ PID = 'C10'
 COQ_TYPE = {'tet': 'Tet', 'tet2': 'Tet2', 'pyr': 'Pyr', 'prism': 'Prism', 'hex': 'Hex'}
 CHECKS = ['extract_surface', 'to_surface', 'extract_surface_fistr', 'block_volumes', 'total_volume',
           'obj_write', 'obj_read', 'model_closed', 'model_volume', 'model_outward',
-          'wf_mesh', 'oriented_conforming', 'model_positive', 'obj_text', 'model_manifold']
+          'wf_mesh', 'oriented_conforming', 'model_positive', 'obj_text', 'model_manifold', 'obj_vtext']
 
 # ---- independent description of element faces (orientation-free cycles) used
 # by the property oracle on the implementation's output
@@ -243,12 +243,23 @@ def case_checks(case, r, expect_ok=True):
     # C10_surface_manifold_edges on the model: hypothesis and conclusion evaluated (the generator's
     # lattices contain non-manifold contacts along edges: both outcomes of edge_manifold occur)
     out.append(f'model_manifold_ok m{i}' if expect_ok else T)
+    # OBJ `v` lines as characters: each raw line is exactly "v " + its three blank-separated tokens joined by
+    # single blanks (ObjVText.vertex_line with the float rendering as identity on the tokens)
+    vraw = ob.get('vraw') if (ob is not None and not is_err(ob)) else None
+    if vraw is None:
+        out.append(T)
+    elif not all(all(32 <= ord(ch) < 127 for ch in ln) for ln in vraw) or any(len(ln.split()) != 4 for ln in vraw):
+        out.append('false')
+    else:
+        toks = lib.coq_list(['(%s, %s, %s)' % tuple(lib.coq_str(t) + '%string' for t in ln.split()[1:]) for ln in vraw])
+        defs.append(f'Definition vt{i} : list string := {lib.coq_list([lib.coq_str(ln) + "%string" for ln in vraw])}.')
+        out.append(f'check_obj_vtext vt{i} {toks}')
     assert len(out) == len(CHECKS)
     return defs, out
 
 
 HEADER = ['From Coq Require Import String.', 'From Coq Require Import List ZArith Bool Arith.', 'Import ListNotations.',
-          'From FV.C10 Require Import Model Corr ObjText.', 'Open Scope Z_scope.',
+          'From FV.C10 Require Import Model Corr ObjText ObjVText.', 'Open Scope Z_scope.',
           'Set Printing Width 100000.', 'Set Printing Depth 100000.']
 
 
@@ -866,7 +877,7 @@ def main(ctx):
     # 2. proofs (in fallback mode: about the baseline tables)
     proof_ok = False
     if tie_ok or fallback:
-        proof_ok, log = ctx.build_props('C10/Props.v', extra_targets=['C10/Corr.vo', 'C10/ObjText.vo'])
+        proof_ok, log = ctx.build_props('C10/Props.v', extra_targets=['C10/Corr.vo', 'C10/ObjText.vo', 'C10/ObjVText.vo'])
         proof_ok = fix_obligations(ctx) and bool(ctx.obligations)
         if not proof_ok:
             ctx.notes['build_log_tail'] = log[-1500:]
@@ -877,7 +888,7 @@ def main(ctx):
         for n in lib.theorem_names(lib.COQ / 'C10' / 'Props.v'):
             ctx.obligations.append({'name': n, 'discharged': False, 'assumptions': [],
                                     'note': 'translator failed closed, no baseline'})
-    model_ok, _, _ = lib.coq_make(['C10/Corr.vo', 'C10/ObjText.vo']) if (tie_ok or fallback) else (False, '', 0)
+    model_ok, _, _ = lib.coq_make(['C10/Corr.vo', 'C10/ObjText.vo', 'C10/ObjVText.vo']) if (tie_ok or fallback) else (False, '', 0)
 
     # 2b. body fingerprint of the OBJ writer (size-dependent behaviour is out of reach of the in-Coq
     # evaluation): a changed body is not a violation, it widens the search to > 8 192 and > 65 536 faces
@@ -1065,7 +1076,7 @@ def replay(path):
         ctx = lib.Ctx(PID, 'quick')
         obs = run_impl(ctx, [], tag='replay', probes=[c['probe']])['probes']['rows']
         po = probe_oracle(c['probe'], obs[0])
-        ok, _, _ = lib.coq_make(['C10/Corr.vo', 'C10/ObjText.vo'])
+        ok, _, _ = lib.coq_make(['C10/Corr.vo', 'C10/ObjText.vo', 'C10/ObjVText.vo'])
         bad = run_coq_probes(ctx, [c['probe']], obs) if ok else None
         print('implementation:', json.dumps(obs[0])[:1500])
         print('oracle (node sets of the element faces):', po or 'same')
@@ -1087,7 +1098,7 @@ def replay(path):
     bad = judge(case, r)
     print('implementation:', json.dumps({k: v for k, v in r.items() if k in ('surface', 'fistr')})[:1500])
     print('oracle:', bad)
-    ok, _, _ = lib.coq_make(['C10/Corr.vo', 'C10/ObjText.vo'])
+    ok, _, _ = lib.coq_make(['C10/Corr.vo', 'C10/ObjText.vo', 'C10/ObjVText.vo'])
     if ok:
         cs = [case]
         res = {0: r}
